@@ -1,0 +1,33 @@
+//go:build verif && !windows
+
+package daemon
+
+import (
+	"os"
+	"path/filepath"
+	"strconv"
+	"time"
+)
+
+// verifPause is a verification-only pause point (build tag "verif"). With
+// VERIF_DAEMON_GATE=<dir> set, the launcher announces that it reached the
+// point by creating <dir>/<handler name>/<point>.reached.<pid> and then waits
+// until <dir>/<handler name>/<point>.go exists, so that a test harness - not
+// the kernel - decides the order of the launcher's steps against the daemon's.
+// Without the variable it returns at once.
+func verifPause(point string) {
+	base := os.Getenv("VERIF_DAEMON_GATE")
+	if base == "" {
+		return
+	}
+	dir := filepath.Join(base, os.Getenv(envDaemonName))
+	os.WriteFile(filepath.Join(dir, point+".reached."+strconv.Itoa(os.Getpid())), nil, 0644)
+	deadline := time.Now().Add(30 * time.Second)
+	for time.Now().Before(deadline) {
+		if _, err := os.Stat(filepath.Join(dir, point+".go")); err == nil {
+			return
+		}
+		time.Sleep(time.Millisecond)
+	}
+	os.Exit(96)
+}
